@@ -21,10 +21,18 @@ QUICK = [
     ("S5", DROP_ASC, 1, "FULLND"),
     ("S0", DROP_ASC, 3, "FULLND"),
 ]
-THOROUGH = []
-for _c in (DROP_ASC, HOLD_DESC, DROP_DESC, HOLD_ASC):
-    THOROUGH += [("S2", _c, 2, "FULLND"), ("S4", _c, 2, "FULLND"), ("S1", _c, 3, "FULLND"), ("S2r", _c, 2, "FULLND"), ("S0", _c, 4, "FULLND"),
-                 ("S4r", _c, 2, "FULLND"), ("S2", _c, 3, "STRUCT"), ("S5", _c, 2, "EDIT")]
+THOROUGH = [
+    ("S2", DROP_ASC, 2, "FULLND"),
+    ("S2", HOLD_DESC, 2, "FULLND"),
+    ("S4", DROP_DESC, 2, "FULLND"),
+    ("S1", DROP_ASC, 3, "FULLND"),
+    ("S2r", HOLD_ASC, 2, "FULLND"),
+    ("S0", DROP_ASC, 4, "FULLND"),
+    ("S4r", HOLD_DESC, 2, "FULLND"),
+    ("S1", HOLD_DESC, 3, "STRUCT"),
+    ("S5", DROP_ASC, 2, "EDIT"),
+    ("S5", HOLD_DESC, 2, "FULLND"),
+]
 
 P = TreeProp(
     "C09",
